@@ -4,8 +4,14 @@ EXTENDS Naturals, Integers, Sequences, FiniteSets, SequencesExt, TLC, Json, IOUt
 CONSTANTS MaxSrc, MaxLen
 Vecs(lo) == UNION {[1..k -> lo..MaxLen] : k \in 1..MaxSrc}
 \* files = -1: in-memory sources; 0 / 1 / 2: jsonl files read by the library (LF, CRLF, no trailing newline)
-Cases == {[lens |-> l, strategy |-> s, seed |-> 7, files |-> f] : l \in Vecs(0), s \in {"sequential", "interleaved"}, f \in {0 - 1, 1, 2}}
-         \cup {[lens |-> l, strategy |-> "weighted", seed |-> sd, files |-> f] : l \in Vecs(1), sd \in {1, 2}, f \in {0 - 1, 0}}
+\* errs: positions <<source, item>> (0-based) whose item is an error (a failing reader / malformed json line): an error item
+\* is an item like any other - it is handed out once, in place, and the items behind it still come
+ErrChoices(l) == {<<>>} \cup {<< <<s - 1, 0>> >> : s \in {k \in 1..Len(l) : l[k] >= 2}}
+                        \cup {<< <<s - 1, l[s] - 2>>, <<s - 1, l[s] - 1>> >> : s \in {k \in 1..Len(l) : l[k] >= 3}}
+Cases == UNION {{[lens |-> l, strategy |-> s, seed |-> 7, files |-> f, errs |-> e] :
+                     s \in {"sequential", "interleaved"}, f \in {0 - 1, 1, 2}, e \in ErrChoices(l)} : l \in Vecs(0)}
+         \cup UNION {{[lens |-> l, strategy |-> "weighted", seed |-> sd, files |-> f, errs |-> e] :
+                     sd \in {1, 2}, f \in {0 - 1, 0}, e \in ErrChoices(l)} : l \in Vecs(1)}
 VARIABLE x
 Init == x = 0 /\ ndJsonSerialize(IOEnv.OUT, SetToSeq(Cases))
 Next == UNCHANGED x
